@@ -21,6 +21,9 @@
      j = "truncated" (a prefix of a written text): if the abstract reader finds it INCOMPLETE (open list,
                      vector, string, |symbol|, label or abbreviation without datum) both readers must
                      signal an error (R7RS read); if it is a complete valid datum, as for "agree";
+     j = "undefined" (hand-written texts with many / out-of-order labels and one reference #m#): if the abstract
+                     reader finds that label m is never defined, both readers must signal an error (a reader has
+                     nothing it could return; the native reader indexes a table with m);
      otherwise       (arbitrary mutations; R7RS leaves the outcome open): only Begin/End pairing - the
                      readers must return or raise, not crash or hang. *)
 EXTENDS TextRead, Json, IOUtils
@@ -102,6 +105,8 @@ TText == /\ IsEvent("Text")
          /\ tj' = IF Ev.j = "agree" THEN <<"agree", "">>
                   ELSE IF Ev.j = "truncated" THEN (IF Incomplete(Ev.tok) THEN <<"error", IncompleteWhy(Ev.tok)>>
                                                   ELSE IF ValidText(Ev.tok, Ev.t) THEN <<"agree", "">> ELSE <<"total", "">>)
+                  ELSE IF Ev.j = "undefined"      \* the abstract reader finds a reference to a label that is never defined
+                  THEN (IF LexOKo(Ev.tok, Ev.t) /\ Read(Ev.tok).err = "unknown label" THEN <<"error", "undefined-label">> ELSE <<"total", "">>)
                   ELSE <<"total", "">>
          /\ cnt' = [cnt EXCEPT !.rejects = @ + (IF ph = "open" /\ Ev.id = cid THEN 0 ELSE 1)]
          /\ UNCHANGED <<ph, cid, rec, x, pt>>
@@ -117,7 +122,7 @@ TRead == /\ IsEvent("Read")
          /\ LET why ==
                   IF ~(ph = "open" /\ Ev.id = cid /\ Ev.w = wr) THEN "event-order"
                   ELSE IF wr = "text" THEN
-                     (IF tj[1] = "error" THEN (IF Ev.ok # 1 THEN "" ELSE "incomplete-text-accepted:" \o tj[2])
+                     (IF tj[1] = "error" THEN (IF Ev.ok # 1 THEN "" ELSE IF tj[2] = "undefined-label" THEN "undefined-label-accepted" ELSE "incomplete-text-accepted:" \o tj[2])
                       ELSE IF tj[1] = "agree" /\ y1 # <<>> THEN AgreeText(y1, Ev.ok, Ev.g)
                       ELSE "")
                   ELSE IF Ev.ok # 1 THEN "read-error"
